@@ -75,7 +75,7 @@ func runC02(t *testing.T, hc HistoryCase) (*h.Violation, h.Info) {
 var c02 = &h.Campaign[HistoryCase]{
 	Prop: "C02", Sub: "history",
 	Rule: "rapid: superuser histories (1-40 calls) of put/activate/delete-version/delete/get/get-version/conditional-get/info/list over 3 ordinary names plus \"\" and _internal/x, values from a small pool (re-puts of equal bytes frequent) incl. empty and nil, version selectors resolved against the model (0, active, latest, latest+1, existing[i], deleted[i], 2^32-1, absolute); result and full superuser dump compared with the map model after EVERY call; non-trivial = history contains delete-version->put, delete->re-create, or activate->put on one name; distinct by history",
-	Quick: 10000, Thorough: 400000,
+	Quick: 10000, Thorough: 1500000,
 	Gen: func(rt *rapid.T) HistoryCase { return HistoryCase{Ops: dbx.GenHistory(rt, 1, 40)} },
 	Run: runC02,
 }
